@@ -298,6 +298,7 @@ func (c *fctx) specEnv(ct *spec.FuncContract, pkg *types.Package, st, old *state
 
 func (c *fctx) applyContract(fr *frame, key string, ct *spec.FuncContract, fn *ssa.Function, sig *types.Signature, invoke bool, args []val, st *state, reach string, pos token.Pos, resT types.Type) val {
 	c.used[contractLabel(ct, key)] = true
+	c.ghostFrameCheck(ct, key)
 	var recvT types.Type
 	if invoke {
 		recvT = types.NewInterfaceType(nil, nil)
@@ -739,6 +740,16 @@ func (c *fctx) doCopy(fr *frame, cm *ssa.CallCommon, reach string, st *state, po
 	arr := c.fresh("cparr", "(Array Int "+es+")")
 	c.assume(fmt.Sprintf("(forall ((j!p Int)) (! (=> (and (<= 0 j!p) (< j!p %s)) (= (select %s (idx (soff %s) j!p)) %s)) :pattern ((select %s (idx (soff %s) j!p)))))", cnt, arr, dst, srcAt("j!p"), arr, dst))
 	c.assume(fmt.Sprintf("(forall ((x!p Int)) (! (=> (or (< x!p (soff %s)) (>= x!p (+ (soff %s) %s))) (= (select %s x!p) (select (select %s (sbase %s)) x!p))) :pattern ((select %s x!p))))", dst, dst, cnt, arr, h, dst, arr))
+	// byte slices: the copied window of the destination reads back as the first cnt bytes of the source (by construction)
+	if eb, _ := types.Unalias(et).Underlying().(*types.Basic); eb != nil && eb.Kind() == types.Uint8 {
+		var srcStr string
+		if isString(cm.Args[1].Type()) {
+			srcStr = fmt.Sprintf("(strsub %s 0 %s)", src.t, cnt)
+		} else {
+			srcStr = fmt.Sprintf("(bytesToStr (select %s (sbase %s)) (soff %s) %s)", h, src.t, src.t, cnt)
+		}
+		c.assume(fmt.Sprintf("(= (bytesToStr %s (soff %s) %s) %s)", arr, dst, cnt, srcStr))
+	}
 	c.setRegion(st, key, srt, fmt.Sprintf("(ite (= (sbase %s) 0) %s (store %s (sbase %s) %s))", dst, h, h, dst, arr))
 	return val{t: cnt}
 }
@@ -1170,5 +1181,86 @@ func (c *fctx) rangeFunc(fr *frame, in ssa.CallInstruction, mc *ssa.MakeClosure,
 	c.assume(implies(reach, or(conds...)))
 	if fr.top {
 		c.rfErrsFinal = c.define("rf.yielderrsF", "Int", fmt.Sprintf("(ite %s (ite %s %s %s) 0)", reach, done, errs, errs1))
+	}
+}
+
+
+// ghostFrameCheck: a post-condition that relates a ghost state g(x) to old(g(x)) says that g changes; unless the contract's
+// assigns clause lists g, call sites keep the old value AND assume the clause — a contradiction that makes every path after
+// the call vacuously verified.  Checked syntactically for the contract under verification and for every contract applied.
+func (c *fctx) ghostFrameCheck(ct *spec.FuncContract, key string) {
+	if ct == nil || (ct.Assigns != nil && ct.Assigns.Any) {
+		return
+	}
+	if c.ghostChecked == nil {
+		c.ghostChecked = map[*spec.FuncContract]bool{}
+	}
+	if c.ghostChecked[ct] {
+		return
+	}
+	c.ghostChecked[ct] = true
+	declared := map[string]bool{}
+	if ct.Assigns != nil {
+		for _, loc := range ct.Assigns.Locs {
+			if cl, ok := loc.(*spec.Call); ok {
+				if id, ok := cl.Fun.(*spec.Ident); ok {
+					declared[id.Name] = true
+				}
+			}
+		}
+	}
+	var inOld func(x spec.Expr, old bool)
+	inOld = func(x spec.Expr, old bool) {
+		switch x := x.(type) {
+		case nil:
+		case *spec.Old:
+			inOld(x.X, true)
+		case *spec.Call:
+			if id, ok := x.Fun.(*spec.Ident); ok && old {
+				if pf := c.P.Pures[id.Name]; pf != nil && pf.State && !declared[id.Name] {
+					c.errorf("contract of %s: a post-condition mentions old(%s(...)) but %s is not in the assigns clause (callers would assume both the old and the new value)", shortFn(key), id.Name, id.Name)
+					declared[id.Name] = true
+				}
+			}
+			for _, a := range x.Args {
+				inOld(a, old)
+			}
+		case *spec.Unary:
+			inOld(x.X, old)
+		case *spec.Binary:
+			inOld(x.X, old)
+			inOld(x.Y, old)
+		case *spec.Cond:
+			inOld(x.C, old)
+			inOld(x.A, old)
+			inOld(x.B, old)
+		case *spec.Index:
+			inOld(x.X, old)
+			inOld(x.I, old)
+		case *spec.SliceE:
+			inOld(x.X, old)
+			inOld(x.Lo, old)
+			inOld(x.Hi, old)
+		case *spec.Select:
+			inOld(x.X, old)
+		case *spec.Quant:
+			inOld(x.Body, old)
+		case *spec.TypeIs:
+			inOld(x.X, old)
+		case *spec.Cast:
+			inOld(x.X, old)
+		case *spec.Let:
+			inOld(x.Val, old)
+			inOld(x.Body, old)
+		}
+	}
+	for _, cl := range ct.Ensures {
+		inOld(cl.E, false)
+	}
+	for _, cl := range ct.Defines {
+		inOld(cl.E, false)
+	}
+	for _, cl := range ct.Assumes {
+		inOld(cl.E, false)
 	}
 }
